@@ -46,7 +46,13 @@ def culture_blob(cname):
     fs += [d.full_date_time_pattern or ""] + [fi.get_era_primary_name(e) or "" for e in eras]
     fs += [SEP2.join(fi.get_era_names(e)) for e in eras]
     assert len(fs) == 92
-    if any(SEP in f for f in fs) or any(SEP2 in f for f in fs[:90]) or any(n == "" for e in eras for n in fi.get_era_names(e)):
+    # the single eras of the other calendars (era ids 2..6 of the model)
+    xeras = other_eras()
+    fs += [fi.get_era_primary_name(e) or "" for e in xeras]
+    fs += [SEP2.join(fi.get_era_names(e)) for e in xeras]
+    assert len(fs) == 102
+    eras = eras + xeras
+    if any(SEP in f for f in fs) or any(SEP2 in f for f in fs[:90] + fs[92:97]) or any(n == "" for e in eras for n in fi.get_era_names(e)):
         blob = None
     else:
         try:
@@ -57,6 +63,34 @@ def culture_blob(cname):
     if blob:
         _BLOB2NAME[blob] = cname
     return blob
+
+
+def other_eras():
+    """anno martyrum (Coptic), anno mundi (Hebrew), anno persico, anno hegirae, Bahá'í — taken from the calendars"""
+    P = c07._P()
+    CS = P.CalendarSystem
+    out = []
+    for cid in ("Coptic", "Hebrew Civil", "Persian Simple", "Hijri Civil-Indian", "Badi"):
+        es = list(CS.for_id(cid).eras())
+        assert len(es) == 1
+        out.append(es[0])
+    return out
+
+
+_ORD = {}
+
+
+def cal_by_ord(k):
+    if not _ORD:
+        P = c07._P()
+        for cid in P.CalendarSystem.ids:
+            c = P.CalendarSystem.for_id(cid)
+            _ORD[int(c._ordinal)] = c
+    return _ORD[k]
+
+
+def ord_of(calid):
+    return int(c07.cal(calid)._ordinal)
 
 
 def describe(u):
@@ -76,6 +110,10 @@ def describe(u):
 
 def split_type(tok):
     """'datetime:2000,1,1,0' -> ('datetime', (2000, 1, 1, 0)); other types have no template"""
+    if tok.startswith("dateC:"):
+        return "date", tuple(int(x) for x in tok.split(":", 1)[1].split(","))
+    if tok.startswith("datetimeC:"):
+        return "datetime", tuple(int(x) for x in tok.split(":", 1)[1].split(","))
     if tok.startswith("datetime"):
         if ":" in tok:
             return "datetime", tuple(int(x) for x in tok.split(":", 1)[1].split(","))
@@ -93,7 +131,7 @@ _TPATS = {}
 def create_t(tok, text, cname, fresh=False):
     """pattern creation through the public API for a type token (LocalDateTime: with the token's template value)"""
     ty, tm = split_type(tok)
-    if ty not in ("datetime", "annual"):
+    if ty not in ("datetime", "annual") and not tok.startswith("dateC:"):
         return c07._fresh(ty, text, cname, "ISO") if fresh else c07.create(ty, text, cname)
     k = (tok, text, cname)
     if not fresh and k in _TPATS:
@@ -102,6 +140,11 @@ def create_t(tok, text, cname, fresh=False):
     T = c07._T()
     if ty == "annual":
         pat = T.AnnualDatePattern.create(text, c07.culture(cname), P.AnnualDate(tm[0], tm[1]))
+    elif tok.startswith("dateC:"):
+        pat = T.LocalDatePattern.create(text, c07.culture(cname), P.LocalDate(tm[1], tm[2], tm[3], cal_by_ord(tm[0])))
+    elif tok.startswith("datetimeC:"):
+        tv = P.LocalDate(tm[1], tm[2], tm[3], cal_by_ord(tm[0])).at(P.LocalTime.from_nanoseconds_since_midnight(tm[4]))
+        pat = T.LocalDateTimePattern.create(text, c07.culture(cname), tv)
     else:
         tv = P.LocalDate(tm[0], tm[1], tm[2]).at(P.LocalTime.from_nanoseconds_since_midnight(tm[3]))
         pat = T.LocalDateTimePattern.create(text, c07.culture(cname), tv)
@@ -147,6 +190,8 @@ def impl(t):
             return f"ok {hexs(s)} {c.index}"
     if op == "pat.calids":
         return hexs(SEP.join(c07._P().CalendarSystem.ids))
+    if op == "pat.calords":
+        return hexs(SEP.join(cal_by_ord(k).id for k in range(19)))
     if op == "cu.names":
         return names_conditions(_BLOB2NAME[t[1]], ascii_lower)
     if op == "pat.compile":
@@ -175,11 +220,12 @@ def value_of(ty, a):
     if ty == "time":
         return P.LocalTime.from_nanoseconds_since_midnight(a[0])
     if ty == "date":
-        return P.LocalDate(a[0], a[1], a[2])
+        return P.LocalDate(a[0], a[1], a[2]) if len(a) == 3 else P.LocalDate(a[0], a[1], a[2], cal_by_ord(a[3]))
     if ty == "offset":
         return P.Offset.from_seconds(a[0])
     if ty == "datetime":
-        return P.LocalDate(a[0], a[1], a[2]).at(P.LocalTime.from_nanoseconds_since_midnight(a[3]))
+        d = P.LocalDate(a[0], a[1], a[2]) if len(a) == 4 else P.LocalDate(a[0], a[1], a[2], cal_by_ord(a[4]))
+        return d.at(P.LocalTime.from_nanoseconds_since_midnight(a[3]))
     if ty == "annual":
         return P.AnnualDate(a[0], a[1])
     if ty == "duration":
@@ -193,13 +239,11 @@ def fields_of(ty, x):
     if ty == "time":
         return [x.nanosecond_of_day]
     if ty == "date":
-        return [x.year, x.month, x.day]
+        return [x.year, x.month, x.day] + ([int(x.calendar._ordinal)] if x.calendar.id != "ISO" else [])
     if ty == "offset":
         return [x.seconds]
     if ty == "datetime":
-        if x.calendar.id != "ISO":
-            return ["cal=" + x.calendar.id.replace(" ", "_"), x.year, x.month, x.day, x.nanosecond_of_day]
-        return [x.year, x.month, x.day, x.nanosecond_of_day]
+        return [x.year, x.month, x.day, x.nanosecond_of_day] + ([int(x.calendar._ordinal)] if x.calendar.id != "ISO" else [])
     if ty == "annual":
         return [x.month, x.day]
     if ty == "duration":
@@ -270,6 +314,21 @@ MODEL_TYPES = ["time", "date", "offset", "datetime", "annual", "duration", "inst
 
 def type_token(rng, ty):
     """the op's type token: LocalDateTime patterns mostly with the default template, sometimes another ISO one"""
+    if ty in ("date", "datetime") and rng.random() < (0.3 if ty == "date" else 0.2):
+        # a template value in any of the 19 calendars (ordinal in the token)
+        calid = rng.choice(c07.cal_ids())
+        c = c07.cal(calid)
+        v = None
+        if rng.random() < 0.3:
+            y = rng.randint(c.min_year, c.max_year)
+            m = c.get_months_in_year(y) - rng.choice([0, 0, 1])
+            v = c07.date_from_days(calid, c07._P().LocalDate(y, m, rng.choice([1, c.get_days_in_month(y, m)]), c)._days_since_epoch)
+        v = v or c07.gen_value(rng, "date", calid)
+        if v is not None:
+            if ty == "date":
+                return f"dateC:{ord_of(calid)},{v[1]},{v[2]},{v[3]}"
+            nod = rng.choice([0, 0, c07.gen_nod(rng), 13 * c07.NPH + 30 * c07.NPM])
+            return f"datetimeC:{ord_of(calid)},{v[1]},{v[2]},{v[3]},{nod}"
     if ty == "annual" and rng.random() < 0.3:
         m = rng.randint(1, 12)
         return f"annual:{m},{rng.choice([1, 28, 29, [31, 29, 31, 30, 31, 30, 31, 31, 30, 31, 30, 31][m - 1]])}"
@@ -312,7 +371,7 @@ def gen_compile_ops(ctx, n, cnames):
     """valid and malformed pattern texts of the three modelled types"""
     import c08
     rng = ctx.rng
-    ops = ["pat.calids"]
+    ops = ["pat.calids", "pat.calords"]
     pool = list("HhmsfFtTuyMdcglZDS+-:/.;'\"\\%<> ,xQ0\0é") + ["''", "'x'", "\\\\"]
     texts = []
     for ty in MODEL_TYPES:
@@ -431,6 +490,9 @@ def gen_engine_ops(ctx, npat, cnames, hostile):
         except Exception:  # noqa: BLE001 — creation is the compile suite's business
             continue
         info = c07.analyse(ty, c07.effective_text(ty, text, cn), cn)
+        tcal = "ISO"
+        if tok.startswith(("dateC:", "datetimeC:")):
+            tcal = cal_by_ord(int(tok.split(":")[1].split(",")[0])).id
         forced = []
         if ty == "duration" and text in ("o", "j"):
             forced = [(c07.DUR_MIN_DAYS, 0), (c07.DUR_MAX_DAYS, c07.NPD - 1), (c07.DUR_MIN_DAYS, 1), (-1, c07.NPD - 1), (-1, 0), (0, 0), (-1, 1), (0, c07.NPD - 1)]
@@ -438,14 +500,21 @@ def gen_engine_ops(ctx, npat, cnames, hostile):
             v = None
             if rep >= 4:
                 v = forced[rep - 4]
-            elif info.ok and rng.random() < 0.6:
-                v = c07.representable(rng, ty, info, pat, "ISO")
+            vcal = tcal
+            if ty in ("date", "datetime") and info.ok and "c" in info.f and rng.random() < 0.7:
+                vcal = rng.choice(c07.cal_ids())       # the calendar field: values of any calendar
+            if v is None and info.ok and rng.random() < 0.6:
+                v = c07.representable(rng, ty, info, pat, vcal)
             if v is None:
-                v = c07.gen_value(rng, ty)
+                v = c07.gen_value(rng, ty, vcal) if ty in ("date", "datetime") else c07.gen_value(rng, ty)
+            if v is None:
+                continue
             if ty == "instant":
                 a = fields_of("instant", c07.mk("instant", v))
+            elif ty in ("date", "datetime"):
+                a = list(v[1:]) + ([ord_of(v[0])] if v[0] != "ISO" else [])
             else:
-                a = list(v[1:]) if ty in ("date", "datetime") else (list(v) if ty in ("annual", "duration") else [v])
+                a = list(v) if ty in ("annual", "duration") else [v]
             fmt_ops.append(f"pat.fmt {tok} {h} {blob} " + " ".join(str(x) for x in a))
             try:
                 txt = pat.format(c07.mk(ty, v))
@@ -456,6 +525,9 @@ def gen_engine_ops(ctx, npat, cnames, hostile):
                 texts += [c08.mutate(rng, txt), c08.mutate(rng, txt)] + c08.out_of_range_variants(rng, txt, 2)
                 if rng.random() < 0.1:
                     texts += ["", txt + "\0", txt.swapcase()]
+            if ty in ("date", "datetime") and v[0] in txt and info.ok and "c" in info.f:
+                for oc in rng.sample(c07.cal_ids(), 2):
+                    texts.append(txt.replace(v[0], oc))          # the fields of one calendar read under another
             if ty == "datetime" and "H" in text:
                 texts += hour24_variants(rng, txt)
             if ty == "duration" and text in ("o", "j"):
